@@ -24,8 +24,9 @@ package logx
 // In-package for: a SizeLimitRotateRule maximum in bytes, DailyRotateRule.rotatedTime (simulated
 // day change), the option/once state reset, and the barrier: every logger's rule is fronted by
 // a driver-supplied RotateRule that delegates ShallRotate / MarkRotated / OutdatedFiles to the
-// real rule.  It (a) recognises the driver's empty barrier record (ShallRotate is asked about
-// currentSize+0; once the writer goroutine asks, every earlier record is completely processed)
+// real rule.  It (a) recognises the driver's empty barrier record (ShallRotate is asked exactly
+// once per record in queue order and the driver knows how many records were queued; once the
+// writer goroutine asks about the barrier record, every earlier record is completely processed)
 // and (b) in "counter" mode produces backup names in the real rule's format but with a
 // synthetic, strictly increasing time, so that rotations need not be a real second (size rule)
 // or a real day (daily rule) apart.  In "real" mode BackupFilename is the real rule's and the
@@ -88,6 +89,10 @@ type c19Rule struct {
 	sig   chan struct{}
 	k     int
 	nrot  atomic.Int64
+	// barrier bookkeeping: ShallRotate is asked exactly once per record, in queue order
+	calls    atomic.Int64 // ShallRotate calls so far
+	markerAt atomic.Int64 // the call with this number is the driver's empty barrier record
+	markers  int64        // barrier records sent so far (driver goroutine only)
 }
 
 func (r *c19Rule) BackupFilename() string {
@@ -106,8 +111,7 @@ func (r *c19Rule) BackupFilename() string {
 func (r *c19Rule) MarkRotated()            { r.inner.MarkRotated() }
 func (r *c19Rule) OutdatedFiles() []string { return r.inner.OutdatedFiles() }
 func (r *c19Rule) ShallRotate(size int64) bool {
-	// called by the writer goroutine, which owns currentSize: an empty record is the barrier
-	if lg := r.f.lg; lg != nil && size == lg.currentSize {
+	if n := r.calls.Add(1); n == r.markerAt.Load() {
 		select {
 		case r.sig <- struct{}{}:
 		default:
@@ -130,6 +134,51 @@ type c19Fam struct {
 	seenTs    map[int]bool
 	events    []kit.M
 	written   bool
+	sent      atomic.Int64 // records handed to this logger (by the driver, or - public family - by anybody)
+}
+
+// c19CountW counts the records handed to a logger through the public API (the driver's and the
+// logger's own diagnostics alike), so that the barrier knows how many ShallRotate calls to await.
+type c19CountW struct {
+	f  *c19Fam
+	lg *RotateLogger
+}
+
+func (c *c19CountW) Write(p []byte) (int, error) {
+	c.f.sent.Add(1)
+	return c.lg.Write(p)
+}
+func (c *c19CountW) Close() error { return c.lg.Close() }
+
+// sync: once the writer goroutine asks ShallRotate about the driver's empty record, every
+// record queued before it is completely processed.
+func (f *c19Fam) sync() (raced bool, err error) {
+	r := f.rule
+	deadline := time.Now().Add(30 * time.Second)
+	for r.calls.Load() < f.sent.Load()+r.markers { // everything queued so far has passed ShallRotate
+		if time.Now().After(deadline) {
+			return false, fmt.Errorf("writer goroutine of %q is stuck: %d records, %d ShallRotate calls\n%s",
+				f.name, f.sent.Load()+r.markers, r.calls.Load(), kit.Stacks())
+		}
+		runtime.Gosched()
+	}
+	select { // drop a stale signal
+	case <-r.sig:
+	default:
+	}
+	before := f.sent.Load()
+	r.markers++
+	r.markerAt.Store(before + r.markers)
+	if _, err := f.lg.Write([]byte{}); err != nil {
+		return false, fmt.Errorf("barrier record refused: %v", err)
+	}
+	select {
+	case <-r.sig:
+	case <-time.After(30 * time.Second):
+		return false, fmt.Errorf("writer goroutine of %q did not reach the barrier record\n%s", f.name, kit.Stacks())
+	}
+	// a record of somebody else (public family: the logger's diagnostics) slipped in between: again
+	return f.sent.Load() != before, nil
 }
 
 type c19World struct {
@@ -362,17 +411,11 @@ func (w *c19World) observe(f *c19Fam) (kit.M, error) {
 func (w *c19World) barrier() error {
 	for round := 0; round < 8; round++ {
 		for _, f := range w.fams {
-			select { // drop a stale signal
-			case <-f.rule.sig:
-			default:
-			}
-			if _, err := f.lg.Write([]byte{}); err != nil {
-				return fmt.Errorf("barrier record refused: %v", err)
-			}
-			select {
-			case <-f.rule.sig:
-			case <-time.After(30 * time.Second):
-				return fmt.Errorf("writer goroutine of %q did not reach the barrier record\n%s", f.name, kit.Stacks())
+			for again := true; again; {
+				var err error
+				if again, err = f.sync(); err != nil {
+					return err
+				}
 			}
 		}
 		if runtime.NumGoroutine() <= w.base {
@@ -542,6 +585,12 @@ func runC19Case(c kit.Case, root string, tr *kit.Tracer, rep *kit.Reporter) (v k
 				return infra(err)
 			}
 		}
+		// count what reaches each logger (nothing has been written yet)
+		cw.infoLog = &c19CountW{f: w.fams[0], lg: w.fams[0].lg}
+		cw.errorLog = &c19CountW{f: w.fams[1], lg: w.fams[1].lg}
+		cw.severeLog = &c19CountW{f: w.fams[2], lg: w.fams[2].lg}
+		cw.slowLog = &c19CountW{f: w.fams[3], lg: w.fams[3].lg}
+		cw.statLog = &c19CountW{f: w.fams[4], lg: w.fams[4].lg}
 		closeAll = Close
 		w.base += 5
 		rep.Count("public_api_"+w.cfg.Rule, 1)
@@ -674,6 +723,7 @@ func runC19Case(c kit.Case, root string, tr *kit.Tracer, rep *kit.Reporter) (v k
 		if err != nil {
 			return id, err
 		}
+		f.sent.Add(1)
 		n, err := f.lg.Write(rec)
 		if err != nil || n != len(rec) {
 			return id, fmt.Errorf("Write before Close returned (%d, %v)", n, err)
